@@ -46,8 +46,7 @@ that can raise: the same under `Except.map`/`Option.map` (an error for one numbe
 Hypotheses are the routines' documented domains where the proof goes through a specification (non-negative lengths for the
 weighted distances, 0/1 matrix for the binary betweenness routines, symmetric matrix where the code reads one triangle).
 
-Partial: `gtom_equivariant_partial` (`nr_steps ≤ 2`; `gtom_three_steps_not_equivariant` shows the model with
-`nr_steps = 3` is not equivariant — defect D17, open known finding) and `breadthdist_equivariant_offdiag_partial`
+Partial: `breadthdist_equivariant_offdiag_partial`
 (ordered pairs of distinct nodes; the diagonal holds the code's "length of a cycle through the source" quirk, which the
 C03 specification leaves open — searched on the real code).
 Not modelled by any slice, search on the real code only: `efficiency_wei(local='original')`, `rich_club_wu/wd`,
@@ -81,24 +80,16 @@ theorem matching_ind_equivariant (A : AMat Int n) :
 theorem edge_nei_overlap_equivariant (A : AMat Int n) :
     edgeNeiOverlap (permA σ A) = (edgeNeiOverlap A).map (permA σ) := edgeNeiOverlap_perm σ A
 
-/-- full statement (false, see `gtom_three_steps_not_equivariant`):
-`∀ s, gtom (permA σ A) s = permA σ (gtom A s)`.  Proved for `nr_steps ≤ 2` (0 returns the binarised matrix, 1 and 2 run no
-in-place expansion round). -/
-theorem gtom_equivariant_partial (A : AMat Int n) (s : Nat) (hs : s ≤ 2) : gtom (permA σ A) s = permA σ (gtom A s) :=
-  gtom_perm_of_le_two σ A s hs
+/-- `gtom(adj, nr_steps)` for every `nr_steps` (0 returns the binarised matrix; each expansion round reads the neighbourhood
+matrix as it was at the start of the round) -/
+theorem gtom_equivariant (A : AMat Int n) (s : Nat) : gtom (permA σ A) s = permA σ (gtom A s) := gtom_perm σ A s
 
-/-- the path 0-4-2-3-1 -/
+/-- the path 0-4-2-3-1: the input on which the former in-place expansion depended on the node order (D17), kept as a regression example -/
 def gtomWitness : AMat Int 5 := AMat.ofFn fun i j =>
   if (i.val, j.val) ∈ [(0, 4), (4, 0), (1, 3), (3, 1), (2, 3), (3, 2), (2, 4), (4, 2)] then 1 else 0
 
-/-- D17: with one in-place expansion round (`nr_steps = 3`) renumbering nodes 1 and 2 of the path 0-4-2-3-1
-changes the result (cell (0,1): 3/5 vs 2/5) -/
-theorem gtom_three_steps_not_equivariant :
-    gtom (permA (Equiv.swap (1 : Fin 5) 2) gtomWitness) 3 ≠ permA (Equiv.swap (1 : Fin 5) 2) (gtom gtomWitness 3) := by
-  intro h
-  have h2 := congrArg (fun M => M.get 0 1) h
-  revert h2
-  decide +kernel
+example : (gtom (permA (Equiv.swap (1 : Fin 5) 2) gtomWitness) 3).get 0 1 = (permA (Equiv.swap (1 : Fin 5) 2) (gtom gtomWitness 3)).get 0 1 := by
+  rw [gtom_equivariant]
 
 /-- `fc` and `total_flo` are renumbered (covers the branch that tests for a neighbour with nonzero *index*) -/
 theorem flow_coef_bd_equivariant (A : AMat Int n) :
@@ -400,7 +391,7 @@ example : (strengthsUndSign (permA s4 U4)).1 ≠ (strengthsUndSign U4).1 := by d
 example : okB (densityDir G4) (fun r => r.2.2 == 6) = true ∧ okB (densityUnd U4) (fun r => r.2.2 == 4) = true := by decide +kernel
 example : (matchingInd (permA s3 G3)).2.2 ≠ (matchingInd G3).2.2 := by decide +kernel
 example : okB (edgeNeiOverlap U4) (fun a => okB (edgeNeiOverlap (permA s4 U4)) fun b => decide (a ≠ b)) = true := by decide +kernel
-example : gtom (permA s4 U4) 2 ≠ gtom U4 2 ∧ gtom (permA s4 U4) 0 ≠ gtom U4 0 := by decide +kernel
+example : gtom (permA s4 U4) 2 ≠ gtom U4 2 ∧ gtom (permA s4 U4) 0 ≠ gtom U4 0 ∧ gtom (permA s4 U4) 3 ≠ gtom U4 3 := by decide +kernel
 example : (flowCoef (permA s3 G3)).2 ≠ (flowCoef G3).2 := by decide +kernel
 example : (richClubBu U4).length = 3 ∧ (richClubBd G4).length = 4 := by decide +kernel
 example : okB (assortativityBin U4 0) (fun r => decide (r ≠ .nan)) = true ∧ okB (assortativityBin G4 1) (fun r => decide (r ≠ .nan)) = true ∧
